@@ -138,7 +138,7 @@ def run_part(rep, tier):
     vecs = common.parse_vectors(out)
     rep.notes['save_and_cli_vectors_exported_by_tlc'] = len(vecs)
     with mp.get_context('fork').Pool(common.NCPU) as pool:
-        obs = pool.map(_obs, vecs, chunksize=max(1, len(vecs) // 64))
+        obs = pool.map(common.limited, [(_obs, v_) for v_ in vecs], chunksize=max(1, len(vecs) // 64))
     obs += [cli_obs(v, use_subprocess=True) for v in vecs if v['args']['family'] == 'cli' and v['args']['cls'] in ('ok_file', 'bad_version', 'overflow_version_1', 'ok_terminal')]
     rep.evaluations += len(obs)
     verdicts, st = common.validate_observations(rep.pid, 'Trace_SaveArgs', obs, tag='saveargs')
